@@ -88,6 +88,7 @@ template<class T, size_t B, size_t M> void g_own_batch_la() {     // floating po
 // not (the storage is only malloc-aligned) although is_aligned() is true.
 template<class T, size_t N> void g_heap_new() {
     Report r; long mis = 0;
+    Tensor<T,N>* kept[24] = {};
     for (int it = 0; it < 24; ++it) {
         char* pad = new char[8 + 16 * (it % 5)];
         Tensor<T,N>* t = nullptr;
@@ -97,8 +98,10 @@ template<class T, size_t N> void g_heap_new() {
         ++r.runs;
         if (t && ((uintptr_t)t->data() % FASTOR_MEMORY_ALIGNMENT_VALUE)) ++mis;
         if (rc == 1) { ++r.fault; char more[96]; std::snprintf(more, sizeof more, "sig=%d heap-tensor-misaligned-so-far=%ld", g_fault_sig, mis); r.note("FAULT", '-', 0, 0, more); }
-        delete[] pad;      // the tensors are kept so that later allocations land elsewhere
+        kept[it] = t;
+        delete[] pad;      // the tensors are kept until the end so that later allocations land elsewhere
     }
+    for (auto* t : kept) delete t;
     VG_DESC("heap_new T=%s N=%zu std=%ld", TN, N, (long)__cplusplus); print_report(desc, r);
 }
 template<class T, size_t N> void g_own_1d() {     // owning tensor methods / reductions / element-wise at the guard
